@@ -1,16 +1,123 @@
-"""Replay search (DESIGN §3.5): never decides anything; looks for a concrete failing input on the
-real code for a clause Verus could not discharge."""
+"""Replay search (DESIGN §3.5).
+
+Never decides a property on its own: it is run only for an obligation Verus could not discharge and
+looks for a concrete input on which the REAL code (the crate in /repo, built as it stands) disagrees
+with an executable reading of that clause.  A hit is attached to the VIOLATION line and can be
+re-run with `./check replay <file>`.
+"""
+import hashlib
+import json
+import os
+import shutil
+import subprocess
+
+VERIF = os.path.dirname(os.path.dirname(os.path.abspath(__file__)))
+REPO = os.environ.get("VERIF_REPO", "/repo")
+WORK = os.path.join(VERIF, ".work")
+
+# which search modes can exhibit a failure of an obligation on a given function (primary first)
+MODES = [
+    ("parser::SymbolicBDD::", ["parse", "formula"]),
+    ("parser::expect", ["parse"]),
+    ("parser::check", ["parse"]),
+    ("parser::ParsedFormula::to_free_index", ["index", "formula"]),
+    ("parser::ParsedFormula::new_with_env", ["index", "formula", "parse"]),
+    ("parser::ParsedFormula::var_is_free", ["formula", "index"]),
+    ("parser::ParsedFormula::", ["formula"]),
+    ("bdd::BDDEnv::exists", ["quant", "formula"]),
+    ("bdd::BDDEnv::all", ["quant", "formula"]),
+    ("bdd::BDDEnv::cmp_count", ["count", "formula"]),
+    ("bdd::BDDEnv::aln", ["count", "formula"]),
+    ("bdd::BDDEnv::amn", ["count", "formula"]),
+    ("bdd::BDDEnv::exn", ["count", "formula"]),
+    ("bdd::BDDEnv::count_", ["count", "formula"]),
+    ("bdd::BDDEnv::model", ["model"]),
+    ("bdd::BDDEnv::infer", ["model"]),
+    ("bdd::BDDEnv::retain", ["retain"]),
+    ("bdd::BDD::is_", ["retain", "ops"]),
+    ("truth_table::", ["retain"]),
+    ("bdd::BDDEnv::fp", ["fp", "formula"]),
+    ("bdd::BDDEnv::", ["ops", "quant", "count", "formula"]),
+    ("symbols::", ["ops", "formula", "quant"]),
+]
 
 
-def search(pid, fl, b, tier, seed):
+def modes_for(fid):
+    for pre, ms in MODES:
+        if fid.startswith(pre):
+            return ms
+    return ["formula", "ops"]
+
+
+def build_replay():
+    """build the replay binary against REPO's current tree (offline); returns path or None"""
+    d = os.path.join(WORK, "replay-" + hashlib.sha1(REPO.encode()).hexdigest()[:8])
+    os.makedirs(os.path.join(d, "src"), exist_ok=True)
+    shutil.copy(os.path.join(VERIF, "replay", "src", "main.rs"), os.path.join(d, "src", "main.rs"))
+    with open(os.path.join(d, "Cargo.toml"), "w") as f:
+        f.write('[package]\nname = "rsbdd_replay"\nversion = "0.0.0"\nedition = "2021"\n\n[dependencies]\n'
+                f'rsbdd = {{ path = "{REPO}" }}\n\n[profile.dev]\nopt-level = 1\ndebug = false\n\n[workspace]\n')
+    lock = os.path.join(REPO, "Cargo.lock")
+    if os.path.exists(lock) and not os.path.exists(os.path.join(d, "Cargo.lock")):
+        shutil.copy(lock, os.path.join(d, "Cargo.lock"))
+    env = dict(os.environ, CARGO_NET_OFFLINE="true", CARGO_TARGET_DIR=os.path.join(WORK, "replay-target"))
+    p = subprocess.run(["cargo", "build", "--offline", "--quiet"], cwd=d, env=env, capture_output=True, text=True, timeout=1800)
+    if p.returncode != 0:
+        # a stale lock file can block resolution: retry without it
+        try:
+            os.remove(os.path.join(d, "Cargo.lock"))
+        except OSError:
+            pass
+        p = subprocess.run(["cargo", "build", "--offline", "--quiet"], cwd=d, env=env, capture_output=True, text=True, timeout=1800)
+        if p.returncode != 0:
+            return None, p.stderr[-1500:]
+    return os.path.join(WORK, "replay-target", "debug", "rsbdd_replay"), ""
+
+
+def search(pid, fl, b, tier, seed, binary=None):
+    """returns dict(mode, case, expected, actual, cmd) or None"""
+    if binary is None:
+        binary, err = build_replay()
+        if binary is None:
+            raise RuntimeError("replay crate does not build against the current tree: " + err)
+    budget = "20000" if tier == "thorough" else "3000"
+    for mode in modes_for(fl.fid):
+        try:
+            p = subprocess.run([binary, "search", mode, budget, str(seed)], capture_output=True, text=True, timeout=900 if tier == "thorough" else 240)
+        except subprocess.TimeoutExpired:
+            continue
+        line = (p.stdout.strip().split("\n") or [""])[-1]
+        if p.returncode == 1 and line.startswith("{"):
+            try:
+                d = json.loads(line)
+            except Exception:
+                continue
+            if d.get("case") is not None:
+                d["cmd"] = f"replay case {d['mode']} <case>   (binary built from /verif/replay against /repo)"
+                return d
     return None
 
 
 def replay_file(path):
-    import json
     d = json.load(open(path))
-    print(json.dumps({k: d[k] for k in ("property", "failed_obligation", "failing_input")}, indent=1))
-    if not d.get("failing_input"):
-        print("no failing input recorded for this obligation (no-failing-input-found)")
+    print(f"property={d.get('property')} obligation={d.get('failed_obligation')}")
+    fi = d.get("failing_input")
+    if not fi:
+        print("no failing input recorded for this obligation (no-failing-input-found); verifier output:")
+        print(d.get("verifier_output", ""))
         return 0
+    binary, err = build_replay()
+    if binary is None:
+        print("replay crate does not build against the current tree:", err)
+        return 2
+    p = subprocess.run([binary, "case", fi["mode"], fi["case"]], capture_output=True, text=True, timeout=600)
+    line = (p.stdout.strip().split("\n") or [""])[-1]
+    print(f"mode={fi['mode']} case={fi['case']}")
+    if p.returncode == 1:
+        r = json.loads(line)
+        print("REPRODUCED on the real code:")
+        print("  expected:", r["expected"])
+        print("  actual:  ", r["actual"])
+        return 1
+    print("not reproduced on the current tree (the real code agrees with the reference on this case)")
     return 0
